@@ -241,7 +241,7 @@ func (d *driver) amount(n int) int {
 	return a
 }
 
-func (d *driver) step(g Ev) (e Ev, err error) {
+func (d *driver) step(g Ev, amt int) (e Ev, err error) {
 	e = Ev{C: "mirror", Ev: g.Ev, Off: -1, Alias: -1, Runs: [][3]int{}, Maps: [][2]int{}}
 	defer func() {
 		if r := recover(); r != nil {
@@ -258,7 +258,7 @@ func (d *driver) step(g Ev) (e Ev, err error) {
 	e.Page, e.Mod = d.page, TokMod
 	switch g.Ev {
 	case "Claim":
-		e.N = d.amount(g.N)
+		e.N = amt
 		s := d.b.Claim(e.N)
 		e.Len = len(s)
 		if len(s) > 0 && d.base != nil {
@@ -267,11 +267,11 @@ func (d *driver) step(g Ev) (e Ev, err error) {
 			d.probe(s, e.Off, &e)
 		}
 	case "Commit":
-		e.N = d.amount(g.N)
+		e.N = amt
 		e.Ret = d.b.Commit(e.N)
 		d.dtot = (d.dtot + e.Ret) % TokMod
 	case "Consume":
-		e.N = d.amount(g.N)
+		e.N = amt
 		e.Ret = d.b.Consume(e.N)
 	case "Reset":
 		d.b.Reset()
@@ -331,8 +331,13 @@ func (d *driver) same(g, e Ev) bool {
 }
 
 // Run replays every behaviour of `in` and writes the recorded trace to `out`.
-// mode "jitter": amounts are perturbed off the unit grid (seeded); the model's
-// predictions do not apply then and drift is not counted.
+// Modes (combinable, e.g. "jitter+fill"):
+//   jitter  amounts are perturbed off the unit grid (seeded); the model's
+//           predictions do not apply then and drift is not counted
+//   fill    a Commit(n) that does not directly follow a Claim of at least n is
+//           preceded by Claim(n), so that every committed byte carries its
+//           token (Claim does not change the buffer's state, the generated
+//           history stays a subsequence of what is executed)
 func Run(a tr.Args) error {
 	w, err := tr.NewWriter(a.Out)
 	if err != nil {
@@ -340,7 +345,8 @@ func Run(a tr.Args) error {
 	}
 	sum := tr.Summary{Component: "mirror"}
 	d := &driver{}
-	probes, crossings, rounded, prefaulted := 0, 0, 0, 0
+	probes, crossings, rounded, prefaulted, queued := 0, 0, 0, 0, 0
+	jitter, fill := strings.Contains(a.Mode, "jitter"), strings.Contains(a.Mode, "fill")
 	err = tr.Behaviours(a.In, func(idx int, raw json.RawMessage) error {
 		var steps []Ev
 		if err := json.Unmarshal(raw, &steps); err != nil {
@@ -354,33 +360,34 @@ func Run(a tr.Args) error {
 		}
 		sum.Scenarios++
 		nontrivial := false
-		if a.Mode == "jitter" {
+		if jitter {
 			// per-scenario generator, so that one scenario can be replayed alone
 			// (-seed s+k-1 replays scenario k of a run with -seed s)
 			d.jit = rand.New(rand.NewSource(a.Seed + int64(idx)))
 		}
-		for i, g := range steps {
-			if i > 0 && d.dead {
-				break
-			}
-			e, err := d.step(g)
+		n := 0         // events emitted in this scenario
+		lastClaim := -1 // amount of the claim made by the previous step, -1 if none
+		exec := func(g Ev, amt int, predicted bool) (Ev, error) {
+			e, err := d.step(g, amt)
 			if err != nil {
-				return err
+				return e, err
 			}
-			e.Sid, e.I = idx, i+1
+			n++
+			e.Sid, e.I = idx, n
 			w.Emit(e)
 			if g.Ev == "New" {
 				rounded += b2i(e.N != e.Size)
 				prefaulted += e.Pf
 			}
-			if d.jit == nil && !d.same(g, e) {
+			if predicted && d.jit == nil && !d.same(g, e) {
 				sum.Drift++
 				if sum.FirstDrift == nil {
-					sum.FirstDrift = map[string]any{"sid": idx, "i": i + 1, "scale": d.scale, "predicted": g, "observed": e}
+					sum.FirstDrift = map[string]any{"sid": idx, "i": n, "scale": d.scale, "predicted": g, "observed": e}
 				}
 			}
 			if e.Alias >= 0 {
 				probes++
+				queued += b2i(e.Used > 0)
 			}
 			// non-trivial: a claim crossing the end of the ring while
 			// committed bytes are queued
@@ -390,14 +397,40 @@ func Run(a tr.Args) error {
 					nontrivial = true
 				}
 			}
+			lastClaim = -1
+			if e.Ev == "Claim" {
+				lastClaim = e.N
+			}
+			return e, nil
+		}
+		for _, g := range steps {
+			if g.Ev != "New" && d.dead {
+				break
+			}
+			amt := 0
+			if g.Ev == "Claim" || g.Ev == "Commit" || g.Ev == "Consume" {
+				amt = d.amount(g.N)
+			}
+			if fill && g.Ev == "Commit" && amt > 0 && lastClaim < amt {
+				// mode fill: what is committed has been claimed (and tagged) first
+				if e, err := exec(Ev{Ev: "Claim"}, amt, false); err != nil {
+					return err
+				} else if e.Pan == 1 {
+					if _, err := exec(Ev{Ev: "Destroy"}, 0, false); err != nil {
+						return err
+					}
+					break
+				}
+			}
+			e, err := exec(g, amt, true)
+			if err != nil {
+				return err
+			}
 			if e.Pan == 1 && g.Ev != "Destroy" {
 				// the object is in an unknown state: release it and stop
-				e2, err := d.step(Ev{Ev: "Destroy"})
-				if err != nil {
+				if _, err := exec(Ev{Ev: "Destroy"}, 0, false); err != nil {
 					return err
 				}
-				e2.Sid, e2.I = idx, i+2
-				w.Emit(e2)
 				break
 			}
 		}
@@ -410,7 +443,7 @@ func Run(a tr.Args) error {
 		return err
 	}
 	sum.Events = w.N
-	sum.Notes = map[string]int{"probed_claims": probes, "crossing_claims": crossings,
+	sum.Notes = map[string]int{"probed_claims": probes, "probed_claims_with_bytes_queued": queued, "crossing_claims": crossings,
 		"rounded_sizes": rounded, "prefaulted": prefaulted}
 	if err := w.Close(); err != nil {
 		return err
